@@ -338,26 +338,31 @@ Render(t, full) ==
                     200+i unary | 300+i binary | 400+3(i-1)+v assignment | 500 ternary *)
 IncOf(k, v) == Inc(IF k \in {1, 3} THEN "++" ELSE "--", k > 2, Vars[v])
 PosLeaf == <<Num("7", 7), Num("3", 3), Num("2", 2), Num("5", 5)>>
+\* family 5: the same shapes for ** alone over small literals, so that both groupings of a ** b ** c stay inside the
+\* model's number range (7 ** (3 ** 2) does not): 2 ** 3 ** 2 is 512, (2 ** 3) ** 2 is 64
+PosLeaf5 == <<Num("2", 2), Num("3", 3), Num("2", 2), Num("1", 1)>>
 \* choices allowed for an expression at depth d in family f, given the number nl of leaves and no of
 \* operators placed so far
 LeafChoices(f, nl) ==
   IF f = 1 THEN (1..NLit1) \cup {101, 102} \cup {117, 115}       \* x y  x++ --y
-  ELSE IF f = 2 THEN {1}                       \* 1 = the literal of this leaf position (PosLeaf)
+  ELSE IF f \in {2, 5} THEN {1}                \* 1 = the literal of this leaf position (PosLeaf)
   ELSE (1..NLit) \cup {101, 102, 103} \cup (111..122)
 OpChoices(f) ==
-  IF f = 2 THEN (201..204) \cup (301..320) \cup {400 + 3 * (i - 1) + 1 : i \in 1..11} \cup {500}
+  IF f = 5 THEN {306, 202}                     \* ** and unary minus
+  ELSE IF f = 2 THEN (201..204) \cup (301..320) \cup {400 + 3 * (i - 1) + 1 : i \in 1..11} \cup {500}
   ELSE (201..204) \cup (301..320) \cup (401..433) \cup {500}
 Allowed(f, d, nl, no) ==
   IF f = 1 THEN (IF d = 0 THEN OpChoices(1) \cup LeafChoices(1, nl) ELSE LeafChoices(1, nl))
-  ELSE IF f = 2 THEN (IF d = 0 THEN OpChoices(2)
-                      ELSE IF d = 1 /\ no < 2 THEN OpChoices(2) \cup LeafChoices(2, nl)
-                      ELSE LeafChoices(2, nl))
+  ELSE IF f \in {2, 5} THEN (IF d = 0 THEN OpChoices(f)
+                      ELSE IF d = 1 /\ no < 2 THEN OpChoices(f) \cup LeafChoices(f, nl)
+                      ELSE LeafChoices(f, nl))
   ELSE IF f = 4 THEN (IF d = 0 THEN (1..NLit) \cup {201} ELSE 1..NLit)
   ELSE (IF d < MaxDepth THEN OpChoices(3) \cup LeafChoices(3, nl) ELSE LeafChoices(3, nl))
 LeafOf(f, c, nl) ==
   IF c >= 111 THEN IncOf(((c - 111) \div 3) + 1, ((c - 111) % 3) + 1)
   ELSE IF c >= 101 THEN Var(Vars[c - 100])
   ELSE IF f = 2 THEN PosLeaf[IF nl < 4 THEN nl + 1 ELSE 4]
+  ELSE IF f = 5 THEN PosLeaf5[IF nl < 4 THEN nl + 1 ELSE 4]
   ELSE LitFull[c]
 
 (* Parse(i, f, d, nl, no): read one expression starting at ch[i].
